@@ -171,7 +171,12 @@ async fn run_fault<B: Backend>(
     r.check_c03 = false;
     r.allow_unwound = matches!(fc.kind, FaultKind::Panic(_));
     let tape = SchedTape::new(fc.tape.clone());
-    let mode = Rc::new(Cell::new(HookMode::Off));
+    // In half of the cases every suspension point of the engine suspends once
+    // in all steps, not only under the faulted request: reads that an executor
+    // abandons half way (`Expr::Abandon`) are then really cut short, and the
+    // steps around the fault run under a non-trivial poll order as well.
+    let bg = if fc.case.knobs[3] & 1 == 1 { HookMode::CancelPoints } else { HookMode::Off };
+    let mode = Rc::new(Cell::new(bg));
     let stats = Rc::new(HookStats::default());
     let _guard = install_controller(tape.clone(), mode.clone(), stats.clone());
     let _ = take_panics();
@@ -223,14 +228,14 @@ async fn run_fault<B: Backend>(
                     mode.set(if fc.kind == FaultKind::CancelQuery {
                         HookMode::CancelPoints
                     } else {
-                        HookMode::Off
+                        bg
                     });
                     // a panicking sibling (it may hit the flagged executor too)
                     // is handled like the target
                     let res = AssertUnwindSafe(Chooser::new(children, tape.clone()))
                         .catch_unwind()
                         .await;
-                    mode.set(HookMode::Off);
+                    mode.set(bg);
                     out.pendings = pendings.get();
                     out.entered_engine = stats.total.get() > reached_before + 2;
                     let expect = r.eval(*n);
@@ -332,7 +337,7 @@ async fn run_fault<B: Backend>(
                     }
                 }
                 (Step::Session { ops, by_drop }, FaultKind::CancelSessionCall(call)) => {
-                    faulty_session(&mut r, ops, *by_drop, call, k, &mode, &tape, &mut out).await;
+                    faulty_session(&mut r, ops, *by_drop, call, k, &mode, bg, &mut out).await;
                 }
                 _ => r.step(st).await,
             }
@@ -392,7 +397,7 @@ async fn faulty_session<B: Backend>(
     call: usize,
     k: Option<u64>,
     mode: &Rc<Cell<HookMode>>,
-    _tape: &Rc<SchedTape>,
+    bg: HookMode,
     out: &mut FaultOutcome,
 ) {
     use std::sync::atomic::Ordering;
@@ -408,7 +413,7 @@ async fn faulty_session<B: Backend>(
             if $this {
                 mode.set(HookMode::CancelPoints);
                 let res = CancelAfter::new(Box::pin($fut), k, pendings.clone()).await;
-                mode.set(HookMode::Off);
+                mode.set(bg);
                 out.pendings = pendings.get();
                 if res.is_none() {
                     out.cancelled = true;
